@@ -144,7 +144,8 @@ Theorem first_wire_cookies s :
   w_cookies (wire_of c (prepare detect c s)) = r_cookies s ++ c_cookies c.
 Proof.
   intros Hs. unfold wire_of. cbn [w_cookies]. unfold prepare. rewrite prep_body_cookies.
-  unfold prep_cookie, prep_header. simp_r.
+  unfold prep_cookie, prep_header.
+  replace (r_attempt s <=? 0)%Z with true by lia. simp_r.
   replace (r_attempt s <=? 0)%Z with true by lia. rewrite andb_true_r.
   destruct (c_cookies c) eqn:E; cbn [nonempty]; simp_r; [rewrite app_nil_r|]; reflexivity.
 Qed.
@@ -159,7 +160,7 @@ Proof.
   set (s1 := prep_cookie c (prep_header c s)).
   assert (H1 : r_method s1 = r_method s /\ r_form s1 = r_form s /\ r_getbody s1 = r_getbody s /\
                r_reader s1 = r_reader s /\ r_ordered s1 = r_ordered s /\ r_marshal s1 = r_marshal s).
-  { unfold s1, prep_cookie, prep_header. destruct (nonempty (c_cookies c) && _); simp_r; repeat split. }
+  { unfold s1, prep_cookie, prep_header. destruct (r_attempt s <=? 0)%Z; destruct (nonempty (c_cookies c) && _); simp_r; repeat split. }
   destruct H1 as (Em & Efm & Eg & Er & Eo & Ems).
   unfold prep_body, prep_body_gen. rewrite Em, Hf, Hcf. cbn [nonempty andb].
   rewrite Eo, Hod, Efm, Hrf. cbn [nonempty].
@@ -182,7 +183,7 @@ Proof.
   set (s1 := prep_cookie c (prep_header c s)).
   assert (H1 : r_method s1 = r_method s /\ r_form s1 = r_form s /\ r_ordered s1 = r_ordered s /\
                r_marshal s1 = r_marshal s /\ marshal_ct c s1 = marshal_ct c (prep_header c s)).
-  { unfold s1, prep_cookie. destruct (nonempty (c_cookies c) && _); simp_r; repeat split. }
+  { unfold s1, prep_cookie, prep_header. destruct (r_attempt s <=? 0)%Z; destruct (nonempty (c_cookies c) && _); simp_r; repeat split. }
   destruct H1 as (Em & Efm & Eo & Ems & Ect).
   unfold prep_body, prep_body_gen. rewrite Em, Hf, Hcf. cbn [nonempty andb].
   rewrite Eo, Hod, Efm, Hrf. cbn [nonempty].
@@ -204,7 +205,7 @@ Proof.
   intros Hf Hod Ha. unfold wire_of. cbn [w_body]. unfold prepare.
   set (s1 := prep_cookie c (prep_header c s)).
   assert (H1 : r_method s1 = r_method s /\ r_form s1 = r_form s /\ r_ordered s1 = r_ordered s /\ r_attempt s1 = r_attempt s).
-  { unfold s1, prep_cookie, prep_header. destruct (nonempty (c_cookies c) && _); simp_r; repeat split. }
+  { unfold s1, prep_cookie, prep_header. destruct (r_attempt s <=? 0)%Z; destruct (nonempty (c_cookies c) && _); simp_r; repeat split. }
   destruct H1 as (Em & Efm & Eo & Ea).
   unfold prep_body, prep_body_gen. rewrite Em, Hf, Ea. cbn [orb].
   replace (r_attempt s <=? 0)%Z with true by lia. rewrite andb_true_r.
@@ -219,7 +220,7 @@ Proof.
   intros Hf. unfold wire_of. cbn [w_body]. unfold prepare, prep_cookie, prep_header.
   destruct s as [m rq h ck f q bd gb rd un at_ pa pp od ms cl]. simp_r. cbn [r_method] in Hf.
   unfold prep_body, prep_body_gen, body_now.
-  destruct (nonempty (c_cookies c) && _); simp_r; rewrite Hf; reflexivity.
+  destruct (at_ <=? 0)%Z; simp_r; destruct (nonempty (c_cookies c) && _); simp_r; rewrite Hf; reflexivity.
 Qed.
 
 (* "unless a hook deliberately changed it": a header set by a hook (resp.Request.SetHeader)
@@ -230,9 +231,13 @@ Theorem hook_header_is_sent s k v :
 Proof.
   intros Hk. unfold wire_of. cbn [w_headers].
   set (s' := set_headers s (hset k [v] (r_headers s))).
-  assert (Hm : hget k (merge_headers (c_headers c) (r_headers s')) = [v]).
-  { rewrite hget_merge_headers. unfold s'. cbn [set_headers r_headers]. rewrite hget_hset_same. reflexivity. }
-  destruct (prepare_headers_shape detect c s') as [E|[x E]]; cbv zeta in E; rewrite E.
+  set (X := prep_cookie c (prep_header c s')).
+  assert (Hm : hget k (r_headers X) = [v]).
+  { unfold X, prep_cookie, prep_header, s'. simp_r.
+    destruct (r_attempt s <=? 0)%Z; destruct (nonempty (c_cookies c) && _); simp_r;
+    rewrite ?hget_merge_headers, hget_hset_same; reflexivity. }
+  unfold prepare. fold X.
+  destruct (prep_body_headers_shape detect c X) as [E|[x E]]; rewrite E.
   - exact Hm.
   - rewrite hget_hset, Hk. exact Hm.
 Qed.
